@@ -9,6 +9,7 @@ open C06InitModel
 open C06SencModel
 open C06TrexModel
 open C06TimingModel
+open C06SinfModel
 
 let e = C07Aes.aes128_encrypt
 let d = C07Aes.aes128_decrypt
@@ -184,6 +185,18 @@ let trun_string (t : trun_t) : string =
   Printf.sprintf "%d/%d/%s" (int_of_n t.tr_data_offset) (int_of_n t.tr_first_flags)
     (match t.tr_samples with [] -> "-" | l -> S.concat ";" (L.map tsample_string l))
 
+(* ---- sinf / sample entry bytes ---- *)
+let cc_hex (x : coq_N) : string = hex_of_bytes (be_bytes4 x)
+let sinf_d_string (s : sinf_d) : string =
+  (match s.sd_frma with None -> "-" | Some x -> cc_hex x) ^ ":" ^
+  (match s.sd_schm with None -> "-" | Some x -> cc_hex x) ^ ":" ^
+  (match s.sd_schi with
+   | None -> "-"
+   | Some None -> "none"
+   | Some (Some t) ->
+     Printf.sprintf "%d/%d/%d/%d/%d/%s/%s" (int_of_n t.t_version) (int_of_n t.t_cb) (int_of_n t.t_sb)
+       (int_of_n t.t_isprot) (int_of_n t.t_ivsize) (hex_of_bytes (C07Spec.be_bytes (nat_of_int 16) t.t_kid)) (hex_of_bytes t.t_constiv))
+
 let check id what model obs =
   if model = obs then Printf.printf "OK %s\n" id
   else Printf.printf "MISMATCH %s %s model=%s\n" id what
@@ -306,6 +319,31 @@ let () =
         let model = match trun_decode_body hd (bytes_of_hex data) with
           | Ok t -> "ok:" ^ trun_string t | Err -> "err" | Panic -> "panic" | OutOfFuel -> "outoffuel" in
         check id "DecodeTrun" model obs
+      | ["W"; id; kind; entry; sch; iv; kid; obs] ->
+        let b = bytes_of_hex entry in
+        let nfixed = if kind = "v" then 78 else 28 in
+        let payload = box_payload b in
+        let ty = box_type b in
+        let model =
+          if L.length payload < nfixed then "short"
+          else
+            let fixed = L.filteri (fun i _ -> i < nfixed) payload in
+            let rest = L.filteri (fun i _ -> i >= nfixed) payload in
+            match children_of rest with
+            | Ok children ->
+              let se = { se_kind = (if kind = "v" then SVisual else SAudio); se_type = ty; se_children = [] } in
+              (match protect_entry se (pad_iv (bytes_of_hex iv)) (cc sch) (be (bytes_of_hex kid)) true with
+               | Ok (se1, t) ->
+                 let pb = protect_entry_bytes se1.se_type ty fixed children (cc sch) t in
+                 "ok|" ^ hex_of_bytes pb ^ "|" ^
+                 (match unprotect_entry_bytes (nat_of_int nfixed) pb with
+                  | Ok (cb, sd) -> "ok|" ^ hex_of_bytes cb ^ "|" ^ sinf_d_string sd
+                  | Err -> "err" | Panic -> "panic" | OutOfFuel -> "outoffuel")
+               | Err -> "err" | Panic -> "panic" | OutOfFuel -> "outoffuel")
+            | _ -> "children-err" in
+        check id "sample entry bytes (InitProtect / DecryptInit)" model obs
+      | ["X"; id; data; obs] ->
+        check id "DecodeSinf" (res_string sinf_d_string (sinf_decode (bytes_of_hex data))) obs
       | ["M"; id; data; obs] ->
         let box = bytes_of_hex data in
         let model = S.concat "|" (L.map (fun p -> res_string senc_state (senc_parse (n_of_int p) box)) [0; 8; 16; 5]) in
